@@ -161,6 +161,17 @@ pub unsafe extern "C" fn write(fd: c_int, buf: *const c_void, count: size_t) -> 
     let flb = file_len(fd);
     if let Some((idx, kind, errno)) = should_fail() {
         let mut partial = 0usize;
+        if kind == 3 && count > 1 {
+            // a short write without any error: write_all has to go on with the rest
+            let n = ((count / 2) & !511usize).max(1);
+            let r = libc::syscall(libc::SYS_write, fd, buf, n) as ssize_t;
+            if r > 0 {
+                let data = std::slice::from_raw_parts(buf as *const u8, r as usize).to_vec();
+                let fl = file_len(fd);
+                LOG.lock().unwrap().push(Io::Write { off: off as u64, data, flen_after: fl, flen_before: flb, short: true });
+            }
+            return r;
+        }
         if kind == 1 && count > 1 {
             // a short write: half of the bytes (sector aligned if possible) reach the file
             partial = (count / 2) & !511usize;
